@@ -229,8 +229,12 @@ def generate() -> str:
     interface_like = kinds_of(lambda c: issubclass(c, sf.FortranInterface))
     type_like = kinds_of(lambda c: issubclass(c, sf.FortranType))
     s = ProjectSettings()
-    # does FortranSourceFile have its own _cleanup?  (END at file level calls it)
-    file_cleanup = "_cleanup" in sf.FortranSourceFile.__dict__
+    # END at file level calls FortranSourceFile._cleanup: does the method it resolves to
+    # do anything but raise?  (`fileHasCleanup` = it returns normally)
+    fc_src = textwrap.dedent(inspect.getsource(sf.FortranSourceFile._cleanup))
+    fc_body = ast.parse(fc_src).body[0].body
+    fc_stmts = [n for n in fc_body if not (isinstance(n, ast.Expr) and isinstance(n.value, ast.Constant))]
+    file_cleanup = not (len(fc_stmts) >= 1 and isinstance(fc_stmts[0], ast.Raise))
     known_attrs = ["attr_dict", "blockdata", "modules", "submodules", "programs", "subroutines", "namelists",
                    "functions", "types", "interfaces", "enums", "boundprocs", "common", "finalprocs",
                    "variables", "uses", "calls"]
